@@ -65,6 +65,8 @@ def run(ctx):
         tree_cplx = any(d in T.CPLX for d in O.leaf_dts(t))
         if "sliced_drops_imag" in c01_present and O.sliced_unsafe(t, dx):
             return False
+        if O.has_kind(t, ("Gen",)) and not set(O.leaf_dts(t) + [dx]) <= {"float64", "complex128"}:
+            return False
         if "kronsum_inplace_dtype" in c01_present and O.has_kind(t, ("KronSum",)) and tree_cplx and dx not in T.CPLX:
             return False
         if "sliced_index_array_cpu" in c01_present:
